@@ -1,25 +1,37 @@
 //! C19 — builders apply exactly the documented effect of each call, in any order.
 //!
-//! Every sequence harness drives one coset builder with `STEPS` symbolic calls (each step picks
-//! one public method and symbolic arguments) and, in lock-step, a SHADOW MODEL written here from
-//! the documented effect of each call (never by calling coset).  After `build()` *every* public
-//! field of the built value is compared with the model, so a setter that also touches (or fails to
-//! touch) another field is caught.
+//! Every harness drives one coset builder with a sequence of public-method calls whose arguments
+//! are symbolic and, in lock-step, a SHADOW MODEL written here from the *documented* effect of each
+//! call (never by calling coset).  After `build()` EVERY public field of the built value is
+//! compared with the model (the built struct is destructured exhaustively, so a new field cannot be
+//! forgotten), hence a setter that also touches, or fails to touch, another field is caught.
 //!
-//! Arguments are described by small `Copy` "codes" (`Bytes`, `Txt`, `Val`, `Hdr`, `Sig`, `Rcp`)
+//! Two sequence shapes are used, dictated by what CBMC can execute (measured, see the report):
+//!
+//! * `*_setters_seq3` / `c19x_*_seq4`: every step picks one of the builder's *field setters* by
+//!   `kani::any()`; all orders of all setters up to that length are explored.
+//! * `*_chain_*` / `*_adders_*`: the *adders* (`add_*`, `value`, `param`, `claim`, ...: methods that
+//!   `Vec::push`) sit at fixed positions of the sequence, optionally with symbolic setter steps in
+//!   between.  A symbolic choice *between* pushing and not pushing merges `Vec` states (allocated
+//!   or not, capacity 0 or 4) and every later `push` then explores `realloc` with symbolic sizes:
+//!   2 symbolic steps over all 11 `HeaderBuilder` methods already need > 19 M SAT variables and do
+//!   not finish in 10 minutes, so the order of adders is enumerated by the harness text instead.
+//!
+//! Arguments are described by small `Copy` "codes" (`Bytes`, `Txt`, `Val`, `Hdr`, `Sig`, `Rcp`, ...)
 //! from which the real coset argument is made (`mk`) and against which a built field is compared
 //! (`is`) without loops and without `Value`'s recursive `==`.
 //!
 //! "Must panic" guards: `#[kani::should_panic]` alone only shows that *some* input panics.  The
 //! guard harnesses therefore call `returned_instead_of_panicking()` after the guarded call: it
-//! trips a non-panic check class (CBMC's NaN check), which `should_panic` rejects.  The
-//! harness passes iff the call panics for EVERY input admitted by the assumption.
+//! trips a non-panic check class (CBMC's NaN check), which `should_panic` rejects.  Such a harness
+//! passes iff the call panics for EVERY input admitted by its assumption.  (Validated: widening
+//! the assumption of `c19_header_value_reserved_panics` to 1..=8 makes it FAIL.)
 //!
 //! Not covered here (other properties; they reach `into_writer`, which CBMC cannot execute):
-//! `create_signature`, `create_tag`, `create_ciphertext`, `add_created_signature`, ... helpers.
+//! the `create_signature` / `create_tag` / `create_ciphertext` / `add_created_signature` helpers.
 //! Not constructible: a builder whose protected header already has `original_data = Some(..)`
 //! (builders are tuple structs with a private field), so "discards retained wire bytes" is checked
-//! as "after `protected(h)` the built `original_data` is `None`", from the only reachable states.
+//! as "after `protected(h)` the built `original_data` is `None`" from the reachable states.
 use crate::stubs::*;
 use crate::util::*;
 use alloc::string::String;
@@ -28,19 +40,20 @@ use coset::cbor::value::Value;
 use coset::cwt::{ClaimName, ClaimsSet, ClaimsSetBuilder, Timestamp};
 use coset::iana::{self, EnumI64};
 use coset::{
-    Algorithm, ContentType, CoseEncrypt0Builder, CoseEncryptBuilder, CoseKdfContextBuilder, CoseKey,
-    CoseKeyBuilder, CoseMac0Builder, CoseMacBuilder, CoseRecipient, CoseRecipientBuilder,
-    CoseSign1Builder, CoseSignBuilder, CoseSignature, CoseSignatureBuilder, Header, HeaderBuilder,
-    KeyOperation, KeyType, Label, Nonce, PartyInfo, PartyInfoBuilder, ProtectedHeader,
-    RegisteredLabel, SuppPubInfo, SuppPubInfoBuilder,
+    Algorithm, ContentType, CoseEncrypt, CoseEncrypt0, CoseEncrypt0Builder, CoseEncryptBuilder,
+    CoseKdfContextBuilder, CoseKey, CoseKeyBuilder, CoseMac, CoseMac0, CoseMac0Builder,
+    CoseMacBuilder, CoseRecipient, CoseRecipientBuilder, CoseSign, CoseSign1, CoseSign1Builder,
+    CoseSignBuilder, CoseSignature, CoseSignatureBuilder, Header, HeaderBuilder, KeyOperation,
+    KeyType, Label, Nonce, PartyInfo, PartyInfoBuilder, ProtectedHeader, RegisteredLabel,
+    SuppPubInfo, SuppPubInfoBuilder,
 };
 
 // ---------------------------------------------------------------------------------------------
 // Argument codes
 // ---------------------------------------------------------------------------------------------
 
-/// Capacity of the model's append lists (>= the longest sequence used below).
-const CAP: usize = 5;
+/// Capacity of the model's append lists and of the call history (>= the longest sequence).
+const CAP: usize = 6;
 
 /// Fixed-capacity append list (cheaper for CBMC than a `Vec` in the model).
 #[derive(Clone, Copy)]
@@ -74,8 +87,12 @@ impl Bytes {
         kani::assume(len <= 2);
         Bytes { b, len }
     }
+    /// One allocation, no branches: a 2-byte `Vec` whose length is then set to `len` (<= 2).
     fn mk(&self) -> Vec<u8> {
-        small_vec(&self.b, self.len)
+        let mut v = alloc::vec![self.b[0], self.b[1]];
+        // SAFETY: len <= 2 = capacity, both elements initialised, u8 has no drop.
+        unsafe { v.set_len(self.len) };
+        v
     }
     fn is(&self, v: &[u8]) -> bool {
         v.len() == self.len && (self.len < 1 || v[0] == self.b[0]) && (self.len < 2 || v[1] == self.b[1])
@@ -95,20 +112,26 @@ impl Bytes {
 /// An ASCII text of length 0..=2.
 #[derive(Clone, Copy)]
 struct Txt {
-    b: [u8; 4],
+    b: [u8; 2],
     len: usize,
 }
 
 impl Txt {
-    const EMPTY: Txt = Txt { b: [0; 4], len: 0 };
+    const EMPTY: Txt = Txt { b: [0; 2], len: 0 };
     fn any() -> Self {
-        let b = any_ascii4();
+        let b: [u8; 2] = kani::any();
+        kani::assume(b[0] < 0x80 && b[1] < 0x80);
         let len: usize = kani::any();
         kani::assume(len <= 2);
         Txt { b, len }
     }
     fn mk(&self) -> String {
-        ascii_string(&self.b, self.len)
+        let mut v = alloc::vec![self.b[0], self.b[1]];
+        // SAFETY: len <= 2 = capacity, both elements initialised; the bytes are ASCII.
+        unsafe {
+            v.set_len(self.len);
+            String::from_utf8_unchecked(v)
+        }
     }
     fn is(&self, s: &str) -> bool {
         let v = s.as_bytes();
@@ -171,6 +194,27 @@ fn any_enum<T: EnumI64>() -> T {
     e.unwrap()
 }
 
+/// One of three values (for the order-exploring harnesses, where only identity matters).
+fn pick3<T>(a: T, b: T, c: T) -> T {
+    let k: u8 = kani::any();
+    if k == 0 {
+        a
+    } else if k == 1 {
+        b
+    } else {
+        c
+    }
+}
+
+/// Algorithm argument: every registry value if `FULL`, else a palette of three.
+fn arg_alg<const FULL: bool>() -> iana::Algorithm {
+    if FULL {
+        any_enum()
+    } else {
+        pick3(iana::Algorithm::ES256, iana::Algorithm::A128GCM, iana::Algorithm::Reserved)
+    }
+}
+
 fn alg_is(m: &Option<iana::Algorithm>, v: &Option<Algorithm>) -> bool {
     match (m, v) {
         (None, None) => true,
@@ -206,21 +250,23 @@ impl Hdr {
         }
     }
     fn is(&self, h: &Header) -> bool {
-        alg_is(&self.alg, &h.alg)
-            && h.crit.is_empty()
-            && h.content_type.is_none()
-            && self.kid.is(&h.key_id)
-            && self.iv.is(&h.iv)
-            && h.partial_iv.is_empty()
-            && h.counter_signatures.is_empty()
-            && h.rest.is_empty()
+        let Header { alg, crit, content_type, key_id, iv, partial_iv, counter_signatures, rest } = h;
+        alg_is(&self.alg, alg)
+            && crit.is_empty()
+            && content_type.is_none()
+            && self.kid.is(key_id)
+            && self.iv.is(iv)
+            && partial_iv.is_empty()
+            && counter_signatures.is_empty()
+            && rest.is_empty()
     }
     fn differs(&self, o: &Hdr) -> bool {
         !self.kid.same(&o.kid) || !self.iv.same(&o.iv) || self.alg != o.alg
     }
     /// `p` is exactly what `protected(self)` documents: no retained wire bytes, header = self.
     fn is_protected(&self, p: &ProtectedHeader) -> bool {
-        p.original_data.is_none() && self.is(&p.header)
+        let ProtectedHeader { original_data, header } = p;
+        original_data.is_none() && self.is(header)
     }
 }
 
@@ -244,9 +290,10 @@ impl Sig {
         }
     }
     fn is(&self, s: &CoseSignature) -> bool {
-        Hdr::EMPTY.is_protected(&s.protected)
-            && Hdr { kid: self.kid, ..Hdr::EMPTY }.is(&s.unprotected)
-            && self.sig.is(&s.signature)
+        let CoseSignature { protected, unprotected, signature } = s;
+        Hdr::EMPTY.is_protected(protected)
+            && Hdr { kid: self.kid, ..Hdr::EMPTY }.is(unprotected)
+            && self.sig.is(signature)
     }
 }
 
@@ -270,10 +317,30 @@ impl Rcp {
         }
     }
     fn is(&self, r: &CoseRecipient) -> bool {
-        Hdr::EMPTY.is_protected(&r.protected)
-            && Hdr { kid: self.kid, ..Hdr::EMPTY }.is(&r.unprotected)
-            && Bytes::opt_is(&self.ct, &r.ciphertext)
-            && r.recipients.is_empty()
+        let CoseRecipient { protected, unprotected, ciphertext, recipients } = r;
+        Hdr::EMPTY.is_protected(protected)
+            && Hdr { kid: self.kid, ..Hdr::EMPTY }.is(unprotected)
+            && Bytes::opt_is(&self.ct, ciphertext)
+            && recipients.is_empty()
+    }
+}
+
+/// History of the calls made so far (for the `cover!` witnesses).
+struct Hist {
+    n: usize,
+    op: [u8; CAP],
+    /// per call: the argument was non-empty / differed from the default
+    ne: [bool; CAP],
+}
+
+impl Hist {
+    fn new() -> Self {
+        Hist { n: 0, op: [0xff; CAP], ne: [false; CAP] }
+    }
+    fn push(&mut self, op: u8, ne: bool) {
+        self.op[self.n] = op;
+        self.ne[self.n] = ne;
+        self.n += 1;
     }
 }
 
@@ -369,192 +436,272 @@ impl MHeader {
             rest: List::new((Lab::Int(0), Val::Null)),
         }
     }
-    fn check(&self, h: &Header, upto: usize) {
-        assert!(alg_is(&self.alg, &h.alg));
-        assert!(h.crit.len() == self.crit.n);
-        assert!(self.content_type.is(&h.content_type));
-        assert!(self.key_id.is(&h.key_id));
-        assert!(self.iv.is(&h.iv));
-        assert!(self.partial_iv.is(&h.partial_iv));
-        assert!(h.counter_signatures.len() == self.counter_signatures.n);
-        assert!(h.rest.len() == self.rest.n);
+    fn check(&self, h: &Header) {
+        let Header { alg, crit, content_type, key_id, iv, partial_iv, counter_signatures, rest } = h;
+        assert!(alg_is(&self.alg, alg));
+        assert!(self.content_type.is(content_type));
+        assert!(self.key_id.is(key_id));
+        assert!(self.iv.is(iv));
+        assert!(self.partial_iv.is(partial_iv));
+        assert!(crit.len() == self.crit.n);
+        assert!(counter_signatures.len() == self.counter_signatures.n);
+        assert!(rest.len() == self.rest.n);
         let mut k = 0;
-        while k < upto {
+        while k < CAP {
             if k < self.crit.n {
-                assert!(self.crit.items[k].is(&h.crit[k]));
+                assert!(self.crit.items[k].is(&crit[k]));
             }
             if k < self.counter_signatures.n {
-                assert!(self.counter_signatures.items[k].is(&h.counter_signatures[k]));
+                assert!(self.counter_signatures.items[k].is(&counter_signatures[k]));
             }
             if k < self.rest.n {
-                assert!(self.rest.items[k].0.is(&h.rest[k].0));
-                assert!(self.rest.items[k].1.is(&h.rest[k].1));
+                assert!(self.rest.items[k].0.is(&rest[k].0));
+                assert!(self.rest.items[k].1.is(&rest[k].1));
             }
             k += 1;
         }
+        // the consequence named in the property text
+        assert!(iv.is_empty() || partial_iv.is_empty());
     }
 }
 
 const H_KEY_ID: u8 = 0;
 const H_ALGORITHM: u8 = 1;
-const H_ADD_CRITICAL: u8 = 2;
-const H_ADD_CRITICAL_LABEL: u8 = 3;
-const H_CONTENT_FORMAT: u8 = 4;
-const H_CONTENT_TYPE: u8 = 5;
-const H_IV: u8 = 6;
-const H_PARTIAL_IV: u8 = 7;
-const H_ADD_COUNTER_SIGNATURE: u8 = 8;
-const H_VALUE: u8 = 9;
-const H_TEXT_VALUE: u8 = 10;
-const H_OPS: u8 = 11;
+const H_CONTENT_FORMAT: u8 = 2;
+const H_CONTENT_TYPE: u8 = 3;
+const H_IV: u8 = 4;
+const H_PARTIAL_IV: u8 = 5;
+const H_SETTERS: u8 = 6;
 
-/// The documented reserved range of `HeaderBuilder::value` per the property text (labels 1-7;
-/// the doc comment's "[1, 6]" predates the counter-signature field, label 7).
+/// The reserved range of `HeaderBuilder::value` per the property text: labels 1-7 (the doc
+/// comment's "[1, 6]" predates the typed counter-signature field, label 7).
 fn header_label_reserved(l: i64) -> bool {
     1 <= l && l <= 7
 }
 
-/// History of the calls made so far (for the `cover!` witnesses).
-#[derive(Clone, Copy)]
-struct Hist {
-    n: usize,
-    op: [u8; CAP],
-    nonempty: [bool; CAP],
+// One function per public method: the call on coset's builder and its documented effect on the
+// model.  The returned flag says whether the argument was non-empty (for witnesses).
+
+fn h_key_id(b: HeaderBuilder, m: &mut MHeader) -> (HeaderBuilder, bool) {
+    let v = Bytes::any();
+    m.key_id = v;
+    (b.key_id(v.mk()), v.len > 0)
 }
 
-impl Hist {
-    fn new() -> Self {
-        Hist { n: 0, op: [0xff; CAP], nonempty: [false; CAP] }
-    }
-    fn then(mut self, op: u8, nonempty: bool) -> Self {
-        self.op[self.n] = op;
-        self.nonempty[self.n] = nonempty;
-        self.n += 1;
-        self
-    }
-    fn last(&self) -> usize {
-        self.n - 1
-    }
+fn h_algorithm<const FULL: bool>(b: HeaderBuilder, m: &mut MHeader) -> (HeaderBuilder, bool) {
+    let a = arg_alg::<FULL>();
+    m.alg = Some(a);
+    (b.algorithm(a), true)
 }
 
-/// Apply `left` more symbolic calls to `b` (and their documented effect to `m`), then build and
-/// compare.  Written as a recursion so that every call sequence is checked on its own path: CBMC
-/// merges heap state at control-flow joins, and a merged `Vec` (allocated or not, 0 or 1
-/// elements) makes every later `push` explore `realloc` with symbolic sizes.
-fn header_go(b: HeaderBuilder, mut m: MHeader, hist: Hist, left: usize) {
-    if left == 0 {
-        header_done(b.build(), &m, &hist);
-        return;
-    }
-    let op: u8 = kani::any();
-    kani::assume(op < H_OPS);
-    match op {
-        H_KEY_ID => {
-            let v = Bytes::any();
-            m.key_id = v;
-            header_go(b.key_id(v.mk()), m, hist.then(op, v.len > 0), left - 1)
-        }
-        H_ALGORITHM => {
-            let a: iana::Algorithm = any_enum();
-            m.alg = Some(a);
-            header_go(b.algorithm(a), m, hist.then(op, true), left - 1)
-        }
-        H_ADD_CRITICAL => {
-            let p: iana::HeaderParameter = any_enum();
-            m.crit.push(Crit::Assigned(p));
-            header_go(b.add_critical(p), m, hist.then(op, true), left - 1)
-        }
-        H_ADD_CRITICAL_LABEL => {
-            if kani::any() {
-                let p: iana::HeaderParameter = any_enum();
-                m.crit.push(Crit::Assigned(p));
-                header_go(b.add_critical_label(RegisteredLabel::Assigned(p)), m, hist.then(op, true), left - 1)
-            } else {
-                let t = Txt::any();
-                m.crit.push(Crit::Text(t));
-                header_go(b.add_critical_label(RegisteredLabel::Text(t.mk())), m, hist.then(op, false), left - 1)
-            }
-        }
-        H_CONTENT_FORMAT => {
-            let f: iana::CoapContentFormat = any_enum();
-            m.content_type = Ctype::Format(f);
-            header_go(b.content_format(f), m, hist.then(op, true), left - 1)
-        }
-        H_CONTENT_TYPE => {
-            let t = Txt::any();
-            m.content_type = Ctype::Text(t);
-            header_go(b.content_type(t.mk()), m, hist.then(op, t.len > 0), left - 1)
-        }
-        H_IV => {
-            let v = Bytes::any();
-            m.iv = v;
-            m.partial_iv = Bytes::EMPTY;
-            header_go(b.iv(v.mk()), m, hist.then(op, v.len > 0), left - 1)
-        }
-        H_PARTIAL_IV => {
-            let v = Bytes::any();
-            m.partial_iv = v;
-            m.iv = Bytes::EMPTY;
-            header_go(b.partial_iv(v.mk()), m, hist.then(op, v.len > 0), left - 1)
-        }
-        H_ADD_COUNTER_SIGNATURE => {
-            let g = Sig::any();
-            m.counter_signatures.push(g);
-            header_go(b.add_counter_signature(g.mk()), m, hist.then(op, true), left - 1)
-        }
-        H_VALUE => {
-            let l: i64 = kani::any();
-            kani::assume(!header_label_reserved(l));
-            let v = Val::any();
-            m.rest.push((Lab::Int(l), v));
-            header_go(b.value(l, v.mk()), m, hist.then(op, true), left - 1)
-        }
-        _ => {
-            let t = Txt::any();
-            let v = Val::any();
-            m.rest.push((Lab::Text(t), v));
-            header_go(b.text_value(t.mk(), v.mk()), m, hist.then(op, true), left - 1)
-        }
-    }
+fn h_add_critical(b: HeaderBuilder, m: &mut MHeader) -> (HeaderBuilder, bool) {
+    let p: iana::HeaderParameter = any_enum();
+    m.crit.push(Crit::Assigned(p));
+    (b.add_critical(p), true)
 }
 
-fn header_done(h: Header, m: &MHeader, hist: &Hist) {
-    m.check(&h, hist.n);
-    // the consequence named in the property text
-    assert!(h.iv.is_empty() || h.partial_iv.is_empty());
+fn h_add_critical_label_assigned(b: HeaderBuilder, m: &mut MHeader) -> (HeaderBuilder, bool) {
+    let p: iana::HeaderParameter = any_enum();
+    m.crit.push(Crit::Assigned(p));
+    (b.add_critical_label(RegisteredLabel::Assigned(p)), true)
+}
 
-    // witnesses
-    let (op, ne, z) = (&hist.op, &hist.nonempty, hist.last());
+fn h_add_critical_label_text(b: HeaderBuilder, m: &mut MHeader) -> (HeaderBuilder, bool) {
+    let t = Txt::any();
+    m.crit.push(Crit::Text(t));
+    (b.add_critical_label(RegisteredLabel::Text(t.mk())), t.len > 0)
+}
+
+fn h_content_format<const FULL: bool>(b: HeaderBuilder, m: &mut MHeader) -> (HeaderBuilder, bool) {
+    let f: iana::CoapContentFormat = if FULL {
+        any_enum()
+    } else {
+        pick3(
+            iana::CoapContentFormat::TextPlainUtf8,
+            iana::CoapContentFormat::Cbor,
+            iana::CoapContentFormat::CoseSign1,
+        )
+    };
+    m.content_type = Ctype::Format(f);
+    (b.content_format(f), true)
+}
+
+fn h_content_type(b: HeaderBuilder, m: &mut MHeader) -> (HeaderBuilder, bool) {
+    let t = Txt::any();
+    m.content_type = Ctype::Text(t);
+    (b.content_type(t.mk()), t.len > 0)
+}
+
+fn h_iv(b: HeaderBuilder, m: &mut MHeader) -> (HeaderBuilder, bool) {
+    let v = Bytes::any();
+    m.iv = v;
+    m.partial_iv = Bytes::EMPTY;
+    (b.iv(v.mk()), v.len > 0)
+}
+
+fn h_partial_iv(b: HeaderBuilder, m: &mut MHeader) -> (HeaderBuilder, bool) {
+    let v = Bytes::any();
+    m.partial_iv = v;
+    m.iv = Bytes::EMPTY;
+    (b.partial_iv(v.mk()), v.len > 0)
+}
+
+fn h_add_counter_signature(b: HeaderBuilder, m: &mut MHeader) -> (HeaderBuilder, bool) {
+    let g = Sig::any();
+    m.counter_signatures.push(g);
+    (b.add_counter_signature(g.mk()), true)
+}
+
+/// `value(l, v)` for every label outside the reserved range: appended at the end of `rest`.
+fn h_value(b: HeaderBuilder, m: &mut MHeader) -> (HeaderBuilder, bool) {
+    let l: i64 = kani::any();
+    kani::assume(!header_label_reserved(l));
+    let v = Val::any();
+    m.rest.push((Lab::Int(l), v));
+    (b.value(l, v.mk()), true)
+}
+
+fn h_text_value(b: HeaderBuilder, m: &mut MHeader) -> (HeaderBuilder, bool) {
+    let t = Txt::any();
+    let v = Val::any();
+    m.rest.push((Lab::Text(t), v));
+    (b.text_value(t.mk(), v.mk()), t.len > 0)
+}
+
+/// `STEPS` symbolic calls, each any of the six field setters.
+fn header_setter_steps<const STEPS: usize>(
+    mut b: HeaderBuilder,
+    m: &mut MHeader,
+    hist: &mut Hist,
+) -> HeaderBuilder {
+    let mut s = 0;
+    while s < STEPS {
+        let op: u8 = kani::any();
+        kani::assume(op < H_SETTERS);
+        let (nb, ne) = match op {
+            H_KEY_ID => h_key_id(b, m),
+            H_ALGORITHM => h_algorithm::<false>(b, m),
+            H_CONTENT_FORMAT => h_content_format::<false>(b, m),
+            H_CONTENT_TYPE => h_content_type(b, m),
+            H_IV => h_iv(b, m),
+            _ => h_partial_iv(b, m),
+        };
+        b = nb;
+        hist.push(op, ne);
+        s += 1;
+    }
+    b
+}
+
+fn header_setters_seq<const STEPS: usize>() {
+    let (mut m, mut hist) = (MHeader::new(), Hist::new());
+    let b = header_setter_steps::<STEPS>(HeaderBuilder::new(), &mut m, &mut hist);
+    let h = b.build();
+    m.check(&h);
+    let (op, ne, z) = (&hist.op, &hist.ne, STEPS - 1);
     kani::cover!(op[0] == H_IV && ne[0] && op[1] == H_PARTIAL_IV && ne[1] && h.iv.is_empty());
-    kani::cover!(op[0] == H_PARTIAL_IV && ne[0] && op[1] == H_IV && ne[1] && h.partial_iv.is_empty());
-    kani::cover!(op[0] == H_IV && ne[0] && op[z] == H_PARTIAL_IV && !ne[z] && h.iv.is_empty() && h.partial_iv.is_empty());
-    kani::cover!(op[0] == H_KEY_ID && ne[0] && op[z] == H_KEY_ID && !ne[z]);
-    kani::cover!(op[0] == H_CONTENT_FORMAT && op[1] == H_CONTENT_TYPE);
-    kani::cover!(h.rest.len() == hist.n && h.rest.len() >= 2 && matches!(h.rest[0].0, Label::Int(0)) && matches!(h.rest[1].0, Label::Int(8)));
-    kani::cover!(h.rest.len() > 0 && matches!(h.rest[0].0, Label::Int(i64::MIN)));
-    kani::cover!(h.crit.len() == hist.n);
-    kani::cover!(h.counter_signatures.len() == 2);
+    kani::cover!(op[0] == H_KEY_ID && ne[0] && op[1] == H_PARTIAL_IV && ne[1] && op[z] == H_IV && !ne[z]
+        && h.partial_iv.is_empty());
+    core::mem::forget(h);
+}
+
+/// All sequences of 3 calls over the six field setters, from a fresh builder.
+#[kani::proof]
+#[kani::unwind(8)]
+#[kani::stub(alloc::fmt::format, format_stub)]
+fn c19_header_setters_seq3() {
+    header_setters_seq::<3>();
+}
+
+#[kani::proof]
+#[kani::unwind(8)]
+#[kani::stub(alloc::fmt::format, format_stub)]
+fn c19x_header_setters_seq4() {
+    header_setters_seq::<4>();
+}
+
+macro_rules! chain {
+    ($b:ident, $m:ident; $($f:expr),+ $(,)?) => {
+        $( let ($b, _) = $f($b, &mut $m); )+
+    };
+}
+
+// Straight-line chains: together they call every method, every adder at least twice, each adder
+// both before and after setters and other adders; enum arguments range over the whole registry.
+// (Kept short: the cost of a harness is dominated by the trace CBMC builds per `cover!`.)
+
+#[kani::proof]
+#[kani::unwind(8)]
+#[kani::stub(alloc::fmt::format, format_stub)]
+fn c19_header_chain_a() {
+    let mut m = MHeader::new();
+    let b = HeaderBuilder::new();
+    chain!(b, m;
+        h_key_id, h_algorithm::<true>, h_add_critical, h_add_critical_label_text,
+        h_content_format::<true>, h_content_type, h_add_critical,
+    );
+    let h = b.build();
+    m.check(&h);
+    kani::cover!(h.crit.len() == 3 && h.key_id.len() == 2 && matches!(h.crit[1], RegisteredLabel::Text(_)));
     core::mem::forget(h);
 }
 
 #[kani::proof]
-#[kani::unwind(7)]
+#[kani::unwind(8)]
 #[kani::stub(alloc::fmt::format, format_stub)]
-fn c19_header_seq2() {
-    header_go(HeaderBuilder::new(), MHeader::new(), Hist::new(), 2);
+fn c19_header_chain_b() {
+    let mut m = MHeader::new();
+    let b = HeaderBuilder::new();
+    chain!(b, m;
+        h_iv, h_value, h_partial_iv, h_text_value, h_add_counter_signature, h_value,
+        h_add_counter_signature,
+    );
+    let h = b.build();
+    m.check(&h);
+    kani::cover!(h.rest.len() == 3 && matches!(h.rest[0].0, Label::Int(0)) && matches!(h.rest[2].0, Label::Int(8))
+        && h.partial_iv.len() == 2);
+    core::mem::forget(h);
 }
 
 #[kani::proof]
-#[kani::unwind(7)]
+#[kani::unwind(8)]
 #[kani::stub(alloc::fmt::format, format_stub)]
-fn c19x_header_seq3() {
-    header_go(HeaderBuilder::new(), MHeader::new(), Hist::new(), 3);
+fn c19_header_chain_c() {
+    let mut m = MHeader::new();
+    let b = HeaderBuilder::new();
+    chain!(b, m;
+        h_text_value, h_add_critical_label_assigned, h_value, h_key_id, h_add_counter_signature,
+        h_text_value, h_content_type, h_content_format::<true>, h_partial_iv, h_iv,
+    );
+    let h = b.build();
+    m.check(&h);
+    kani::cover!(h.rest.len() == 3 && matches!(h.rest[1].0, Label::Int(i64::MIN)) && h.iv.len() == 1);
+    core::mem::forget(h);
 }
 
-/// `value(l, _)` with a reserved label (1..=7) panics, whatever was called before.
+/// Adders at fixed positions with a symbolic setter call before, between and after them.
+#[kani::proof]
+#[kani::unwind(8)]
+#[kani::stub(alloc::fmt::format, format_stub)]
+fn c19_header_adders_amid_setters() {
+    let (mut m, mut hist) = (MHeader::new(), Hist::new());
+    let b = header_setter_steps::<1>(HeaderBuilder::new(), &mut m, &mut hist);
+    chain!(b, m; h_value, h_add_critical);
+    let b = header_setter_steps::<1>(b, &mut m, &mut hist);
+    chain!(b, m; h_add_counter_signature, h_text_value, h_value);
+    let b = header_setter_steps::<1>(b, &mut m, &mut hist);
+    let h = b.build();
+    m.check(&h);
+    let (op, ne) = (&hist.op, &hist.ne);
+    kani::cover!(op[0] == H_IV && ne[0] && op[1] == H_KEY_ID && op[2] == H_PARTIAL_IV && ne[2] && h.rest.len() == 3);
+    core::mem::forget(h);
+}
+
+/// `value(l, _)` with a reserved label (1..=7) panics for every such label, whatever was called
+/// before.
 #[kani::proof]
 #[kani::should_panic]
-#[kani::unwind(7)]
+#[kani::unwind(8)]
 #[kani::stub(alloc::fmt::format, format_stub)]
 fn c19_header_value_reserved_panics() {
     let l: i64 = kani::any();
@@ -570,3 +717,254 @@ fn c19_header_value_reserved_panics() {
     returned_instead_of_panicking();
     core::mem::forget(b);
 }
+
+// ---------------------------------------------------------------------------------------------
+// Message builders: CoseSignature, CoseSign, CoseSign1, CoseMac, CoseMac0, CoseEncrypt,
+// CoseEncrypt0, CoseRecipient
+// ---------------------------------------------------------------------------------------------
+
+/// Shadow model shared by the eight message builders (a builder uses the fields it has).
+struct MMsg {
+    protected: Hdr,
+    unprotected: Hdr,
+    /// `signature` / `tag`
+    bytes: Bytes,
+    /// `payload` / `ciphertext`
+    opt: Option<Bytes>,
+    sigs: List<Sig>,
+    rcps: List<Rcp>,
+}
+
+impl MMsg {
+    fn new() -> Self {
+        MMsg {
+            protected: Hdr::EMPTY,
+            unprotected: Hdr::EMPTY,
+            bytes: Bytes::EMPTY,
+            opt: None,
+            sigs: List::new(Sig::EMPTY),
+            rcps: List::new(Rcp::EMPTY),
+        }
+    }
+}
+
+const M_PROTECTED: u8 = 0;
+const M_UNPROTECTED: u8 = 1;
+const M_BYTES: u8 = 2;
+const M_OPT: u8 = 3;
+
+/// Uniform view of a message builder: which public methods it has and how to call them.
+trait Msg: Sized {
+    type Built;
+    const BYTES: bool;
+    const OPT: bool;
+    /// 0 = no adder, 1 = adds `CoseSignature`s, 2 = adds `CoseRecipient`s
+    const ADDS: u8;
+    fn new() -> Self;
+    fn protected(self, h: Header) -> Self;
+    fn unprotected(self, h: Header) -> Self;
+    fn bytes(self, v: Vec<u8>) -> Self;
+    fn opt(self, v: Vec<u8>) -> Self;
+    fn add_sig(self, s: CoseSignature) -> Self;
+    fn add_rcp(self, r: CoseRecipient) -> Self;
+    fn build(self) -> Self::Built;
+    /// Compare every field of the built value with the model.
+    fn check(t: &Self::Built, m: &MMsg);
+}
+
+macro_rules! opt_call {
+    ($self:ident, $arg:ident, ) => {{
+        let _ = $arg;
+        unreachable!()
+    }};
+    ($self:ident, $arg:ident, $method:ident) => {
+        $self.$method($arg)
+    };
+}
+
+macro_rules! impl_msg {
+    ($B:ident => $T:ident {
+        bytes: [$($bf:ident)?], opt: [$($of:ident)?],
+        sigs: [$($sf:ident . $sm:ident)?], rcps: [$($rf:ident . $rm:ident)?]
+    }) => {
+        impl Msg for $B {
+            type Built = $T;
+            const BYTES: bool = false $(|| stringify!($bf).len() > 0)?;
+            const OPT: bool = false $(|| stringify!($of).len() > 0)?;
+            const ADDS: u8 = 0 $(+ 1 + 0 * stringify!($sf).len() as u8)? $(+ 2 + 0 * stringify!($rf).len() as u8)?;
+            fn new() -> Self {
+                $B::new()
+            }
+            fn protected(self, h: Header) -> Self {
+                $B::protected(self, h)
+            }
+            fn unprotected(self, h: Header) -> Self {
+                $B::unprotected(self, h)
+            }
+            fn bytes(self, v: Vec<u8>) -> Self {
+                opt_call!(self, v, $($bf)?)
+            }
+            fn opt(self, v: Vec<u8>) -> Self {
+                opt_call!(self, v, $($of)?)
+            }
+            fn add_sig(self, s: CoseSignature) -> Self {
+                opt_call!(self, s, $($sm)?)
+            }
+            fn add_rcp(self, r: CoseRecipient) -> Self {
+                opt_call!(self, r, $($rm)?)
+            }
+            fn build(self) -> $T {
+                $B::build(self)
+            }
+            fn check(t: &$T, m: &MMsg) {
+                // exhaustive: a field added to the struct makes this fail to compile
+                let $T { protected, unprotected, $($bf,)? $($of,)? $($sf,)? $($rf,)? } = t;
+                assert!(m.protected.is_protected(protected));
+                assert!(m.unprotected.is(unprotected));
+                $( assert!(m.bytes.is($bf)); )?
+                $( assert!(Bytes::opt_is(&m.opt, $of)); )?
+                $(
+                    assert!($sf.len() == m.sigs.n);
+                    let mut k = 0;
+                    while k < CAP {
+                        if k < m.sigs.n {
+                            assert!(m.sigs.items[k].is(&$sf[k]));
+                        }
+                        k += 1;
+                    }
+                )?
+                $(
+                    assert!($rf.len() == m.rcps.n);
+                    let mut k = 0;
+                    while k < CAP {
+                        if k < m.rcps.n {
+                            assert!(m.rcps.items[k].is(&$rf[k]));
+                        }
+                        k += 1;
+                    }
+                )?
+            }
+        }
+    };
+}
+
+impl_msg!(CoseSignatureBuilder => CoseSignature { bytes: [signature], opt: [], sigs: [], rcps: [] });
+impl_msg!(CoseSignBuilder => CoseSign { bytes: [], opt: [payload], sigs: [signatures.add_signature], rcps: [] });
+impl_msg!(CoseSign1Builder => CoseSign1 { bytes: [signature], opt: [payload], sigs: [], rcps: [] });
+impl_msg!(CoseMacBuilder => CoseMac { bytes: [tag], opt: [payload], sigs: [], rcps: [recipients.add_recipient] });
+impl_msg!(CoseMac0Builder => CoseMac0 { bytes: [tag], opt: [payload], sigs: [], rcps: [] });
+impl_msg!(CoseEncryptBuilder => CoseEncrypt { bytes: [], opt: [ciphertext], sigs: [], rcps: [recipients.add_recipient] });
+impl_msg!(CoseEncrypt0Builder => CoseEncrypt0 { bytes: [], opt: [ciphertext], sigs: [], rcps: [] });
+impl_msg!(CoseRecipientBuilder => CoseRecipient { bytes: [], opt: [ciphertext], sigs: [], rcps: [recipients.add_recipient] });
+
+/// `STEPS` symbolic calls, each any of the builder's field setters.
+fn msg_setter_steps<M: Msg, const STEPS: usize>(mut b: M, m: &mut MMsg, hist: &mut Hist) -> M {
+    let mut s = 0;
+    while s < STEPS {
+        let op: u8 = kani::any();
+        kani::assume(op <= M_UNPROTECTED || (op == M_BYTES && M::BYTES) || (op == M_OPT && M::OPT));
+        match op {
+            M_PROTECTED => {
+                let h = Hdr::any();
+                hist.push(op, h.differs(&m.protected));
+                m.protected = h;
+                b = b.protected(h.mk());
+            }
+            M_UNPROTECTED => {
+                let h = Hdr::any();
+                hist.push(op, h.differs(&m.unprotected));
+                m.unprotected = h;
+                b = b.unprotected(h.mk());
+            }
+            M_BYTES if M::BYTES => {
+                let v = Bytes::any();
+                hist.push(op, !v.same(&m.bytes));
+                m.bytes = v;
+                b = b.bytes(v.mk());
+            }
+            M_OPT if M::OPT => {
+                let v = Bytes::any();
+                hist.push(op, v.len > 0);
+                m.opt = Some(v);
+                b = b.opt(v.mk());
+            }
+            _ => {}
+        }
+        s += 1;
+    }
+    b
+}
+
+/// All sequences of `STEPS` setter calls from a fresh builder.
+fn msg_setters_seq<M: Msg, const STEPS: usize>() {
+    let (mut m, mut hist) = (MMsg::new(), Hist::new());
+    let b = msg_setter_steps::<M, STEPS>(M::new(), &mut m, &mut hist);
+    let t = b.build();
+    M::check(&t, &m);
+    let (op, ne, z) = (&hist.op, &hist.ne, STEPS - 1);
+    // a later protected() overrides an earlier, different one, with an unrelated call in between
+    kani::cover!(op[0] == M_PROTECTED && ne[0] && op[1] >= M_BYTES && op[z] == M_PROTECTED && ne[z]);
+    // the same non-header field set twice
+    kani::cover!(op[0] >= M_BYTES && op[1] == M_UNPROTECTED && ne[1] && op[z] == op[0] && ne[z]);
+    core::mem::forget(t);
+}
+
+/// setter?, add(x), setter?, add(y), setter? -- adders at fixed positions, symbolic setters around.
+fn msg_adder_chain<M: Msg>() {
+    let (mut m, mut hist) = (MMsg::new(), Hist::new());
+    let mut b = msg_setter_steps::<M, 1>(M::new(), &mut m, &mut hist);
+    let mut round = 0;
+    while round < 2 {
+        if M::ADDS == 1 {
+            let g = Sig::any();
+            m.sigs.push(g);
+            b = b.add_sig(g.mk());
+        } else {
+            let r = Rcp::any();
+            m.rcps.push(r);
+            b = b.add_rcp(r.mk());
+        }
+        b = msg_setter_steps::<M, 1>(b, &mut m, &mut hist);
+        round += 1;
+    }
+    let t = b.build();
+    M::check(&t, &m);
+    let (op, ne) = (&hist.op, &hist.ne);
+    kani::cover!(op[0] == M_PROTECTED && ne[0] && op[1] == M_OPT && op[2] == M_PROTECTED && ne[2]
+        && m.sigs.n + m.rcps.n == 2);
+    core::mem::forget(t);
+}
+
+macro_rules! msg_harnesses {
+    ($B:ident: $seq3:ident, $seq4:ident $(, $chain:ident)?) => {
+        #[kani::proof]
+        #[kani::unwind(8)]
+        #[kani::stub(alloc::fmt::format, format_stub)]
+        fn $seq3() {
+            msg_setters_seq::<$B, 3>();
+        }
+        #[kani::proof]
+        #[kani::unwind(8)]
+        #[kani::stub(alloc::fmt::format, format_stub)]
+        fn $seq4() {
+            msg_setters_seq::<$B, 4>();
+        }
+        $(
+            #[kani::proof]
+            #[kani::unwind(8)]
+            #[kani::stub(alloc::fmt::format, format_stub)]
+            fn $chain() {
+                msg_adder_chain::<$B>();
+            }
+        )?
+    };
+}
+
+msg_harnesses!(CoseSignatureBuilder: c19_signature_setters_seq3, c19x_signature_setters_seq4);
+msg_harnesses!(CoseSignBuilder: c19_sign_setters_seq3, c19x_sign_setters_seq4, c19_sign_adder_chain);
+msg_harnesses!(CoseSign1Builder: c19_sign1_setters_seq3, c19x_sign1_setters_seq4);
+msg_harnesses!(CoseMacBuilder: c19_mac_setters_seq3, c19x_mac_setters_seq4, c19_mac_adder_chain);
+msg_harnesses!(CoseMac0Builder: c19_mac0_setters_seq3, c19x_mac0_setters_seq4);
+msg_harnesses!(CoseEncryptBuilder: c19_encrypt_setters_seq3, c19x_encrypt_setters_seq4, c19_encrypt_adder_chain);
+msg_harnesses!(CoseEncrypt0Builder: c19_encrypt0_setters_seq3, c19x_encrypt0_setters_seq4);
+msg_harnesses!(CoseRecipientBuilder: c19_recipient_setters_seq3, c19x_recipient_setters_seq4, c19_recipient_adder_chain);
